@@ -42,7 +42,7 @@ NormalFormsIrreducible ==
   kind # "ROT" => \A k \in 1..NArr :
      LET nf == NF(kind, st.arrs[k].base, st.arrs[k].hist) IN
        /\ Reduce(kind, <<>>, nf) = nf
-       /\ \A i \in 1..(Len(nf) - 1) : ~Cancels(kind, nf[i], nf[i + 1])
+       /\ \A i \in 1..(Len(nf) - 1) : ~CanCancel(kind, nf[i], nf[i + 1], SubSeq(nf, i + 2, Len(nf)))
 \* an array obtained by applying a transform and then its inverse with the SAME fitted state to x has the normal form of x
 RoundTripIsIdentity ==
   kind \notin {"ROT", "NS"} => \A k \in 1..NArr :
